@@ -67,7 +67,7 @@ def run_extractor(name, libdir, inc, out_lean):
     return True, hashlib.sha256(r.stdout.encode()).hexdigest()[:16]
 
 
-EXTRACTORS = [("extract_consts", TPM2_INC, "Consts"), ("extract_blob", TPM2_INC, "Blob")]
+EXTRACTORS = [("extract_consts", TPM2_INC, "Consts"), ("extract_blob", TPM2_INC, "Blob"), ("extract_cmds", TPM2_INC, "Cmds")]
 
 
 def gen_all(libdir):
